@@ -114,11 +114,15 @@ def _parse_vevent(
     component: Event, tz_provider: Any = None, calendar_name: str | None = None
 ) -> Interval | RecurringPattern[ICalEvent]:
     """Parse a VEVENT component into an Interval or RecurringPattern."""
-    # Extract basic properties
-    summary = str(component.get("SUMMARY", ""))
-    description = str(component.get("DESCRIPTION", ""))
-    uid = str(component.get("UID", ""))
-    location = str(component.get("LOCATION", ""))
+    # Extract basic properties (an absent property is None, as in ICalEvent)
+    def text(name: str) -> str | None:
+        value = component.get(name)
+        return str(value) if value is not None else None
+
+    summary = text("SUMMARY")
+    description = text("DESCRIPTION")
+    uid = text("UID")
+    location = text("LOCATION")
 
     dtstamp_prop = component.get("DTSTAMP")
     dtstamp = dtstamp_prop.dt if dtstamp_prop else None
